@@ -479,6 +479,16 @@ func (s *IndexedState) rem(ctx *Context, id string) (bool, error) {
 			return false, nil
 		}
 
+		// Remove from the store first.  If that fails, memory still
+		// agrees with the store and the caller can try again;
+		// the other way around, a second attempt would find
+		// nothing in memory, skip the store and report success
+		// while the record is still stored.
+		_, err = s.Store.Remove(ctx, s.Name, []byte(id))
+		if err != nil {
+			return false, err
+		}
+
 		if rule != nil {
 			if err := s.unindexRule(ctx, id, rule); err != nil {
 				return false, err
@@ -488,11 +498,6 @@ func (s *IndexedState) rem(ctx *Context, id string) (bool, error) {
 		delete(s.IdToFact, id)
 
 		s.FactIndex.RemIdTerms(ctx, ExtractTerms(ctx, fact), id)
-
-		_, err = s.Store.Remove(ctx, s.Name, []byte(id))
-		if err != nil {
-			return true, err
-		}
 	} else {
 		Log(DEBUG, ctx, "IndexedState.rem", "state", s.Name, "id", id, "warning", "not found")
 	}
